@@ -22,12 +22,16 @@ PROPERTY_ID = "C13"
 ISOLATION = "subprocess"  # data stores only create their directories in a master process
 LEVEL = "exploration"
 RULE = (
-    "A case is a store kind (directory with a suffix / sqlite file), an initial mode and a history of 1-25 steps drawn from "
+    "A case is a store kind (directory with a suffix, a quarter of them with a compression part: fa.gz, fasta.gz / sqlite file), an initial mode and a history of 1-25 steps drawn from "
     "write, write_not_completed, write_log, drop_not_completed(id), drop_not_completed(), close+reopen(mode) over a pool of "
     "related identifiers (a, ba, aa, ab, b, names equal to or containing the suffix text, with and without the format suffix; "
     "about 40% of the pools add identifiers with interior dots: a.1, a.2, ba.1, g.1.x, g.1.y, ENSG01.2, A.FASTA, b.fa, and about half add a "
     "pair that differs only in case or in one character (a/A, ba/BA, a_fa/axfa, a_1/a.1); not-completed "
     "records of a directory store are also written under '<id>.json', the form the writer apps use). "
+    "About half of the record and log texts are a plain two-line ASCII text with '\\n' line ends; the others are drawn from CRLF, bare CR and mixed "
+    "line ends, a leading U+FEFF, latin-1 range / Greek / CJK / astral characters (also placed after and across the first 100 bytes, the sample "
+    "`open_` decides the encoding from), the empty text, blank lines, trailing blanks, no final newline and Unicode line breaks. The model holds the "
+    "text exactly as it was given. "
     "After every step the live store and a freshly opened read-only store are compared with the dictionary model: member id "
     "sets, content of every member, md5 of every member, validate() counts and 'Has log', `in`, len, and the log records "
     "(`ds.logs` identifiers 'logs/<name>' and their text). After the last step of a directory history the directory is zipped and "
@@ -50,15 +54,94 @@ ASSUMPTIONS = [
     "(it holds one log row per session, sqlite_data_store.py `_write`: 'todo how to evaluate whether writing a new log?'; the directory "
     "store keeps both). Read-only stores reject write_log",
     "a zipped directory store is read with the archive made as the library's tests make it (shutil.make_archive with base_dir = directory "
-    "name); records are ASCII with '\\n' line ends, so the zipped reader's latin-1 decoding returns the same text",
+    "name)",
+    "record text is any str that UTF-8 can encode; no docstring or test of either store documents a translation of line ends or of characters "
+    "between write and read (DataStoreSqlite returns every text verbatim; the loaders only ever splitlines() what read() returns), and "
+    "validate() compares the stored checksum, which is that of the text given, with the text read back: so read() == text written, "
+    "md5(id) == md5(text) and validate() all-correct are asserted for every text on every store. `open_` documents that a byte order mark of a "
+    "*file* is dropped (test_open_handles_bom); a record whose text starts with U+FEFF is the one input where that and this property "
+    "disagree, it is generated rarely and reported under its own circumstance signature (.../leading-bom/...)",
+    "a directory-store suffix may carry a compression part ('fa.gz', 'fasta.gz': test_directory_data_store_write_compressed); identifiers are "
+    "then given bare or as '<id>.fa.gz' and name the same record, exactly as for a plain suffix",
+    "failures at a step of a directory history whose circumstance is a compressed suffix, a text with '\\r' or a leading U+FEFF (and, for the "
+    "zipped read-back, non-ASCII text) are reported under one circumstance signature each and the history stops there",
 ]
 
-SUFFIXES = ["fasta", "fa", "txt"]
-STEMS = ["a", "ba", "aa", "ab", "b", "fab", "fasta", "xfasta", "fa", "a_fa", "axfa", "A", "BA", "txt1", "nc", "json1"]
+# a quarter of the cases use a suffix with a compression part (open_data_store(..., suffix="fa.gz") is a tested configuration)
+SUFFIXES = ["fasta", "fasta", "fa", "fa", "txt", "txt", "fa.gz", "fasta.gz"]
+STEMS = ["a", "ba", "aa", "ab", "b", "fab", "fasta", "xfasta", "fa", "a_fa", "axfa", "A", "BA", "txt1", "nc", "json1", "gz"]
 # identifiers with interior dots; related to the plain stems and to each other
 DOTTED = ["a.1", "a.2", "ba.1", "g.1.x", "g.1.y", "ENSG01.2", "A.FASTA", "b.fa"]
 # pairs that a case-insensitive or pattern comparison (SQL LIKE: '_' matches any character) would confuse
 CONFUSABLE = [["a", "A"], ["ba", "BA"], ["a_fa", "axfa"], ["a_1", "a.1"]]
+# record text: about half of the records are the plain two-line ASCII text, the others vary line ends, encoding width and blanks
+TEXT_STYLES = ["plain"] * 16 + [
+    "crlf", "cr", "mixed-eol", "cr-mid", "bom", "latin1", "greek", "cjk", "astral", "late-nonascii", "split-sample",
+    "high-only", "empty", "trailing-blanks", "blank-lines", "no-final-newline", "unicode-breaks",
+]  # fmt: skip
+
+
+def make_text(op: str, style: str, stem: str, counter: int) -> str:
+    """the text of a record; every non-empty text carries the counter, so two records never hold the same text"""
+    lines = [f'{{"nc": "{stem}", "n": {counter}}}'] if op == "write_nc" else [f">{stem}", f"DATA{counter}"]
+    first, last = lines[0], lines[-1]
+    if style == "plain":
+        return first if op == "write_nc" else "\n".join(lines) + "\n"
+    if style == "crlf":
+        return "\r\n".join(lines) + "\r\n"
+    if style == "cr":
+        return "\r".join(lines) + "\r"
+    if style == "mixed-eol":
+        return f"{first}\r\nx\ny\r{last}\n"
+    if style == "cr-mid":
+        return f"{first}\rz\n{last}"
+    if style == "bom":
+        return "\ufeff" + "\n".join(lines) + "\n"
+    if style == "latin1":
+        return f"{first} caf\xe9 \xfc\xf1\n{last}\xe5\n"
+    if style == "greek":
+        return f"{first} \u03b1\u03b2\u03b3\n{last}\n"
+    if style == "cjk":
+        return f"{first} \u65e5\u672c\u8a9e\n\u4e2d\u6587{last}\n"
+    if style == "astral":
+        return f"{first} \U0001f600\U0001d518\n{last}\n"
+    if style == "late-nonascii":
+        # the first 100 bytes (what open_ samples to choose an encoding) are ASCII
+        return f"{first}\n{'A' * 110}\xe9\u65e5\n{last}\n"
+    if style == "split-sample":
+        # byte 100 of the UTF-8 form falls inside a three byte character
+        return "\xe9" * 49 + "A" + "\u65e5" + f"\n{first}\n{last}\n"
+    if style == "high-only":
+        return "\xe9\xe8\xfc" * (1 + counter % 7)
+    if style == "empty":
+        return ""
+    if style == "trailing-blanks":
+        return "\n".join(lines) + "\n  \n\n \t"
+    if style == "blank-lines":
+        return f"\n\n {first}\n\n{last}\n\n"
+    if style == "no-final-newline":
+        return "\n".join(lines)
+    if style == "unicode-breaks":
+        return f"{first}\u2028{last}\x85\x0c{counter}\n"
+    raise ValueError(style)
+
+
+def text_circumstances(text: str) -> list:
+    """circumstance tags of a record text that a text-mode reader may not return as written"""
+    out = []
+    if "\r" in text:
+        out.append("cr-in-text")
+    if text[:1] == "\ufeff":
+        out.append("leading-bom")
+    if any(ord(c) > 127 for c in text[1:]) or "\x7f" < text[:1] != "\ufeff":
+        out.append("non-ascii-text")
+    return out
+
+
+def is_compressed(suffix: str) -> bool:
+    return suffix.rsplit(".", 1)[-1] in ("gz", "bz2", "zip") and "." in suffix
+
+
 SCRATCH = os.path.join(os.path.dirname(os.path.dirname(os.path.abspath(__file__))), ".scratch")
 
 
@@ -88,7 +171,7 @@ def model_key(kind: str, suffix: str, stem: str, sfx) -> str:
 
 def dotted_circumstance(kind: str, suffix: str, ident: str):
     """circumstance tag of a directory-store identifier whose last dotted component is not the store's suffix"""
-    if kind != "dir" or "." not in ident:
+    if kind != "dir" or "." not in ident or ident.endswith(f".{suffix}"):
         return None
     last = ident.rsplit(".", 1)[1]
     if last == suffix or last in ("json", "log"):
@@ -131,7 +214,7 @@ def histories(draw):
             if op == "write" and cur_mode != "r":
                 done.add(mkey)
             counter += 1
-            text = f">{stem}\nDATA{counter}\n" if op != "write_nc" else f'{{"nc": "{stem}", "n": {counter}}}'
+            text = make_text(op, draw(st.sampled_from(TEXT_STYLES)), stem, counter)
             steps.append({"op": op, "id": stem, "sfx": with_sfx, "text": text})
         elif op == "reopen":
             cur_mode = draw(st.sampled_from(["w", "a", "a", "r"]))
@@ -236,6 +319,22 @@ def snapshot(s: Soft, store: Store, ds, tag):
     return out
 
 
+# what a failure at a step (or of the zipped read-back) with a given circumstance is reported as: one signature per root cause
+STEP_TAILS = {
+    "append-nc-json-over-completed": "completed-record-not-protected",
+    "compressed-suffix": "record-or-checksum-misnamed",
+    "cr-in-text": "text-not-returned-as-written",
+    "leading-bom": "text-not-returned-as-written",
+}
+ZIP_TAILS = {
+    "txt-suffix": "checksum-files-listed-as-records",
+    "compressed-suffix": "member-not-decompressed",
+    "cr-in-text": "text-not-returned-as-written",
+    "non-ascii-text": "text-not-returned-as-written",
+    "leading-bom": "text-not-returned-as-written",
+}
+
+
 def exec_history(case) -> Soft:
     s = Soft("C13/")
     os.makedirs(SCRATCH, exist_ok=True)
@@ -274,10 +373,23 @@ def _run(s: Soft, case, root):
             # store's suffix is a circumstance of its own; whatever clause shows it first carries that tag (one root cause,
             # one signature) and the history stops there, because the store and the model no longer name the same records
             t = Soft(s.prefix)
-            circumstance = None
+            circumstance = text_tag = None
+            writes = step["op"] in ("write", "write_nc", "write_log") and store.mode != "r"
+            if kind == "dir" and writes and step["op"] != "write_log" and is_compressed(case["suffix"]):
+                # a store whose suffix has a compression part (fa.gz)
+                circumstance = "compressed-suffix"
+            if kind == "dir" and writes:
+                # the directory store reads its records in text mode: line ends other than '\n' and a leading U+FEFF
+                tags = [c for c in text_circumstances(step["text"]) if c != "non-ascii-text"]
+                text_tag = tags[0] if tags else None
+                circumstance = circumstance or text_tag
+            if writes:
+                s.cls(*("text:" + c for c in text_circumstances(step["text"])))
+                if step["text"] == "":
+                    s.cls("text:empty")
             if step["op"] in ("write", "write_nc") and store.mode != "r":
                 key, ident = store.key(step["id"], step["sfx"])
-                circumstance = dotted_circumstance(kind, case["suffix"], ident)
+                circumstance = circumstance or dotted_circumstance(kind, case["suffix"], ident)
                 if step["op"] == "write_nc" and step["sfx"] == "json" and store.mode == "a" and key in C:
                     # append mode, '<id>.json' while <id> is completed: the append guard looks the literal name up
                     circumstance = circumstance or "append-nc-json-over-completed"
@@ -295,7 +407,9 @@ def _run(s: Soft, case, root):
             _step(s, t, case, store, ds, root, i, step, C, N, L, session, session_logs, state)
             if circumstance and t.failures:
                 f = t.failures[0]
-                tail = "completed-record-not-protected" if circumstance.startswith("append") else "record-not-held-under-its-identifier"
+                if text_tag and f.signature.endswith(("/content-C", "/content-N", "/content")):
+                    circumstance = text_tag  # the text read back differs: not what a misnamed record or checksum looks like
+                tail = STEP_TAILS.get(circumstance, "record-not-held-under-its-identifier")
                 s.fail(f"{pre}{circumstance}/{tail}", f"first shown by {f.signature}: {f.message}")
                 aborted = True
                 break
@@ -513,16 +627,22 @@ def _zipped(s: Soft, case, store, root, C, N, L):
     if not ok:
         return
     s.cls("zip")
-    # circumstance of its own: the checksum files (md5/<name>.txt) of a store whose suffix is 'txt'
+    # circumstances of their own, e.g. the checksum files (md5/<name>.txt) of a store whose suffix is 'txt'
     md5_dir = os.path.join(store.source, "md5")
-    circumstance = "txt-suffix" if case["suffix"] == "txt" and os.path.isdir(md5_dir) and os.listdir(md5_dir) else None
-    if circumstance:
-        s.cls("zip-" + circumstance)
+    # compressed members (a store whose suffix has a compression part); text that a latin-1 / universal-newline reader changes
+    circumstances = ["compressed-suffix"] if is_compressed(case["suffix"]) and C else []
+    tags = {c for txt in list(C.values()) + list(N.values()) + list(L.values()) for c in text_circumstances(txt)}
+    circumstances += [c for c in ("cr-in-text", "non-ascii-text", "leading-bom") if c in tags]
+    if case["suffix"] == "txt" and os.path.isdir(md5_dir) and os.listdir(md5_dir):
+        circumstances.append("txt-suffix")
+    if circumstances:
+        s.cls(*("zip-" + c for c in circumstances))
         t = Soft(s.prefix)
         _zipped_clauses(t, case, z, zs, C, N, L)
         if t.failures:
             f = t.failures[0]
-            s.fail(f"{pre}{circumstance}/checksum-files-listed-as-records", f"first shown by {f.signature}: {f.message}")
+            c = circumstances[0]
+            s.fail(f"{pre}{c}/{ZIP_TAILS[c]}", f"first shown by {f.signature}: {f.message}")
         return
     _zipped_clauses(s, case, z, zs, C, N, L)
 
@@ -579,7 +699,7 @@ FUZZ = {
 
 META = {
     "technique": "Hypothesis-generated operation histories over related identifiers against a dictionary model, with a live-vs-reopened differential after every step and a zipped read-back at the end",
-    "level_text": "Each run drives about a thousand histories of up to 25 store operations (both store kinds, all modes, close/reopen) over identifier pools built so that ids are suffixes/prefixes of each other, contain the suffix text or carry interior dots, and after every single step compares membership, content and checksum of every record and the log records with a plain dictionary model, on the live object and on a freshly opened read-only store; the final directory is also read back through the zipped read-only store.",
-    "level_note": "Outcomes the documentation leaves open are checked only for policy-free invariants (see assumptions): overwrite-mode rewrites, a second log name within one sqlite session. In-memory sqlite, compressed members, non-ASCII record text and log names re-used across sessions are not driven.",
+    "level_text": "Each run drives about a thousand histories of up to 25 store operations (both store kinds, all modes, close/reopen) over identifier pools built so that ids are suffixes/prefixes of each other, contain the suffix text or carry interior dots (a quarter of the directory stores hold gzip-compressed members), with record texts that vary line ends, encoding width, blanks and emptiness, and after every single step compares membership, content and checksum of every record and the log records with a plain dictionary model, on the live object and on a freshly opened read-only store; the final directory is also read back through the zipped read-only store.",
+    "level_note": "Outcomes the documentation leaves open are checked only for policy-free invariants (see assumptions): overwrite-mode rewrites, a second log name within one sqlite session. In-memory sqlite, bz2 / zip member compression, bytes records, text that UTF-8 cannot encode and log names re-used across sessions are not driven.",
     "design_ref": "DESIGN.md section 1, C13",
 }
